@@ -1,3 +1,4 @@
+import os
 """Registry of Kani harnesses: which property, which tier, the kernel driven, the stated bound.
 
 budget_s = per-harness wall cap (3x the time measured on the unchanged tree, at least 300 s).
@@ -51,6 +52,8 @@ HARNESSES = {
          bound="YAML list of 3 numbers, any u32 each", obligation="the numbers in order; refused iff any two are equal"),
     dict(name=M + "c13_servings_seq4", tier="thorough", kernel="metadata::value_as_servings", stubs=[FMT], budget_s=900,
          bound="YAML list of 4 numbers", obligation="the numbers in order; refused iff any two are equal"),
+    dict(name=M + "c13_recipe_time_total", tier="quick", kernel="metadata::RecipeTime::total", budget_s=300,
+         bound="any Total(u32) or Composed{Option<u32>, Option<u32>}", obligation="total == prep + cook; no overflow panic, no wrapped sum"),
     dict(name=M + "c13_locale_2", tier="quick", kernel="metadata::value_as_locale", stubs=[FMT],
              bound="2 printable ASCII bytes", budget_s=300, obligation="Ok iff both alphabetic"),
         dict(name=M + "c13_locale_3", tier="quick", kernel="metadata::value_as_locale", stubs=[FMT],
@@ -135,6 +138,15 @@ HARNESSES["C06"] = [
 ]
 
 
+HARNESSES["C10"] = [
+    dict(name="parser::model::verif_kani::c10_should_be_listed", tier="quick", kernel="parser::Modifiers::should_be_listed", budget_s=300,
+         bound="every u16 bit pattern", obligation="a component is listed iff it is neither hidden nor a reference"),
+    dict(name=CV + "c09_fit_fraction_range", tier="quick", kernel="convert::ScaledQuantity::fit_fraction (fit of grouped totals)",
+         stubs=[RS, FMT, MARK, "Fractions::config / Converter::fractions_config / Number::new_approx / try_fraction: see C09"],
+         bound="3 imperial volume units, symbolic ratios/thresholds; range value with any finite ends; unwind 8", budget_s=600,
+         obligation="fitting a grouped total (a range) into another unit converts both ends into that unit: no amount is lost or invented"),
+]
+
 BP = "parser::block_parser::verif_kani::"
 
 
@@ -156,6 +168,7 @@ HARNESSES["C03"] = [
     dict(name="error::verif_kani::c03_color_generator_index", tier="quick", kernel="error::ColorGenerator::next", budget_s=300,
          bound="any valid start state, up to 16 calls; unwind 20", obligation="index always in bounds"),
     _reuse("C13", "c13_compact_h10"), _reuse("C13", "c13_compact_h8_m2"), _reuse("C13", "c13_compact_malformed5"),
+    _reuse("C13", "c13_recipe_time_total"),
     _reuse("C12", "c12_new_approx_structure"), _reuse("C12", "c12_lookup_contract"),
     _reuse("C06", "c06_intermediate_ref_c3_s2"),
     _reuse("C09", "c09_convert_to_best_number"), _reuse("C09", "c09_fit_fraction_range"),
@@ -167,4 +180,7 @@ def select(prop, tier):
     for e in HARNESSES.get(prop, []):
         if e["tier"] == "quick" or tier == "thorough":
             out.append(e)
+    flt = os.environ.get("VERIF_HARNESS")      # development aid: run only harnesses whose name contains this text
+    if flt:
+        out = [e for e in out if flt in e["name"]]
     return out
